@@ -158,7 +158,8 @@ Section SubTables.
       /\ get_lookup_tables sd (a_commands a) 0 (n_sub_cmd nd) false (n_sub_star nd)
            (match assocN pi os with Some o => o | None => [] end) = Ok T
       /\ BashSem.sub_accepting a id = d_accepting sd
-      /\ (forall pi', script_id (a_subwords a) pi' = Some id -> pi' = pi).
+      /\ (forall pi', script_id (a_subwords a) pi' = Some id -> pi' = pi)
+      /\ (forall rt, rtrans d = Ok rt -> assocN pi (get_subwords rt 0) = Some id).
   Proof.
     intro Htr. destruct (all_tables_inv _ _ _ _ _ _ Hall) as [rt F]. pose proof (af_rt _ _ _ _ _ _ _ F) as Hrt.
     assert (Hin : In (s, ISub pi lvl, to) rt) by (apply (trans_on_rt _ _ _ _ _ Hwf Hrt); exact Htr).
@@ -172,7 +173,7 @@ Section SubTables.
     assert (ND2 : NoDup (map (fun e : N * N * tables => snd (fst e)) (a_subwords a))).
     { rewrite <- map_map, (subs_pairs rt Hrt). apply ids_NoDup. }
     exists id, sd, T. split; [apply (script_id_in _ pi id T ND1 HinT) |].
-    split; [apply (subword_tables_in _ pi id T ND2 HinT) |]. split; [exact Hsd |]. split; [exact Hglt |]. split.
+    split; [apply (subword_tables_in _ pi id T ND2 HinT) |]. split; [exact Hsd |]. split; [exact Hglt |]. split; [| split].
     - assert (Hacc : In (id, map (fun s0 => s0 + 0) (d_accepting sd)) (a_subaccepting a)).
       { apply (subaccepting_exact Bash c om os nd a Hall). exists rt, pi, sd. repeat split; assumption. }
       unfold BashSem.sub_accepting. rewrite (in_assocN id _ _ (eq_ind_r (fun l => NoDup l) (ids_NoDup rt) (subacc_pairs rt Hrt)) Hacc).
@@ -187,5 +188,6 @@ Section SubTables.
       + inversion E1; subst. exfalso. apply Hnot. apply in_map_iff. exists (pi, id). split; [reflexivity | exact H2].
       + inversion E2; subst. exfalso. apply Hnot. apply in_map_iff. exists (pi', id). split; [reflexivity | exact H1].
       + apply IH; assumption.
+    - intros rt2 Hrt2. rewrite Hrt in Hrt2. inversion Hrt2; subst rt2. apply in_assocN; [apply (get_subwords_ids rt 0) | exact Hid].
   Qed.
 End SubTables.
